@@ -123,6 +123,7 @@ pub fn scenario(mode: &str, pool_size: u32, progs: &[&str]) -> Scenario {
         servers,
         actors,
         opts: Opts::default(),
+        meta: serde_json::Value::Null,
     }
 }
 
@@ -157,6 +158,7 @@ pub fn timeout_scenario(mode: &str, limit: Option<u64>) -> Scenario {
         servers,
         actors,
         opts: Opts::default(),
+        meta: serde_json::Value::Null,
     }
 }
 
